@@ -13,6 +13,7 @@ PROP = {
         {"name": "fixed", "quick": 3000000, "thorough": 30000000, "maxlen": 24},
         {"name": "codecs", "quick": 3500000, "thorough": 40000000, "maxlen": 80},
         {"name": "codecs_long", "quick": 150000, "thorough": 1500000, "maxlen": 32},
+        {"name": "codecs_small_stack", "quick": 200, "thorough": 3000, "maxlen": 32},
     ],
     "uchar": ["codecs", "fixed"],
     "fuzz": [{"name": "codecs", "secs": 60, "maxlen": 80}],
